@@ -9,12 +9,15 @@ import collections
 
 
 class CBus:
-    def __init__(self, rng, policy="random", hold=None, p_idle=0.2, ack=None, per_topic=False):
+    def __init__(self, rng, policy="random", hold=None, p_idle=0.2, ack=None, per_topic=False, concurrent=False):
         # per_topic: the topics of one consumer advance independently (a handler per topic: one message at a time per
         # topic, but a consumer may be handling messages of several of its topics at once)
         # ack: produce() returns only some event-loop steps after the message has been appended (a broker's
         # acknowledgement): by then the message may have been delivered and handled, and answers to it may be on their way
+        # concurrent: a handler is started for every message as it is delivered (in log order per topic), whether or not the
+        # consumer's previous handler has returned -- e.g. while that one still waits for the acknowledgement of what it sent
         self.rng, self.policy, self.hold, self.p_idle, self.ack, self.per_topic = rng, policy, hold, p_idle, ack, per_topic
+        self.concurrent = concurrent
         self.log = collections.defaultdict(list)         # topic -> messages
         self.consumers = []
         self.wake = None
@@ -45,10 +48,10 @@ class CBus:
     def _candidates(self):
         out = []
         for c in self.consumers:
-            if c.busy and not self.per_topic:
+            if c.busy and not self.per_topic and not self.concurrent:
                 continue
             for t, k in c.cursor.items():
-                if k < len(self.log[t]) and t not in c.busy_topics:
+                if k < len(self.log[t]) and (t not in c.busy_topics or self.concurrent):
                     out.append((c, t))
         return out
 
